@@ -28,6 +28,10 @@ WITNESS_TESTS = {
     "pairs_fn": ["batch_from_carryover", "batch_from_pipe", "pipe_arm_guard"],
     "what": "PUSH->PULL over tcp, burst of 240 numbered messages alternating 100 B and 300 KiB (> SNDBATCH_BYTES): received in the order sent",
   },
+  "c02_detach_drops_unread_frames": {
+    "file": "witness/c02_detach_drops_unread_frames.rs", "props": ["C02"], "pairs_fn": ["AnonymousIngressEngine::deregister_pipe"],
+    "what": "PULL reading a 3-frame message frame by frame while an unrelated PUSH peer disconnects: the remaining frames are still delivered",
+  },
   "c10_req_send_race": {
     "file": "witness/c10_req_send_race.rs", "props": ["C10"], "pairs_fn": ["ReqSocket::send"],
     "what": "8 tasks race send() on clones of one REQ socket in ReadyToSend (8 worker threads, up to 3000 rounds): exactly one succeeds per round",
@@ -113,12 +117,15 @@ ENGINE_TRUSTED = COMMON_TRUSTED + [
 ]
 
 PROPS["C02"] = {
-  "units": ["framebatch", "engine"],
+  "units": ["framebatch", "engine", "anon"],
   "kani_quick": [], "kani_thorough": [],
   "claim": "Receiver side, proved unbounded on the verbatim code: ZmtpEngine::process_data delivers only complete messages (MORE on all but the last frame), and delivered frames + the message in progress equal, in order, "
            "the data frames the framer returned (nothing dropped, duplicated, reordered or merged across calls); a message of more than 255 frames closes the connection with PeerError instead of panicking and nothing truncated is delivered. "
-           "The real FrameBatch (push/pop/insert/remove/index/len/is_empty/demote) is proved against its Seq<Msg> view with the derived capacity preconditions (len < 255, with_capacity <= 255).",
-  "level_note": "recv()/recv_multipart() stash handling in AnonymousIngressEngine, socket-level interleaving with other peers and the sender-side MORE normalisation loops (iter_mut().enumerate(): outside Verus) are not covered. "
+           "The real FrameBatch (push/pop/insert/remove/index/len/is_empty/demote) is proved against its Seq<Msg> view with the derived capacity preconditions (len < 255, with_capacity <= 255). "
+           "Application side (PULL/SUB, unit anon): with stream = unread frames of the message in progress ++ the frames of the batches the queue hands out, recv() returns exactly the next frame of the stream, recv_multipart() the rest of a message begun frame by frame "
+           "or the next message whole, a failed call loses nothing, and a peer detaching (deregister_pipe) leaves the unread frames untouched.",
+  "level_note": "Unit anon uses the sequential lock model for the frame cache (one task receives at a time) and an abstract ReadyPipeQueue (its pop order is a ghost sequence; cancel safety of pop() assumed); queued batches are assumed to be whole messages "
+                "(proved for tcp/ipc by the engine contract, assumed for inproc). DEALER/ROUTER frame_recv_buffer, socket-level interleaving with other peers and the sender-side MORE normalisation loops (iter_mut().enumerate(): outside Verus) are not covered. "
                 "FrameBatch::from(Vec) / with_capacity beyond 255 panic by design of the public API: derived preconditions, see DESIGN.md findings.",
   "technique": "contract-based deductive verification (Verus; engine invariant + ghost read log of the abstract framer; data-structure view for FrameBatch)",
   "trusted_base": ENGINE_TRUSTED + ["prelude/vecu8.rs: assumed contract of xs_foundation VecU8 (panic conditions as preconditions)"],
@@ -240,13 +247,15 @@ PROPS["C11"] = {
 }
 
 PROPS["C14"] = {
-  "units": ["iface", "route", "egress", "batch"],
+  "units": ["iface", "route", "egress", "batch", "anon"],
   "kani_quick": [], "kani_thorough": [],
   "claim": "Error mapping only, proved on the verbatim async functions of the session-backed connection interface (ScaConnectionIface): with SNDTIMEO = 0 a full pipe yields would-block at once and the batch is handed back unchanged; "
            "with SNDTIMEO = -1 send_multipart_owned never answers would-block or timeout (untimed wait); errors are only would-block / timeout / connection-closed; try_send_multipart_owned_sync and try_route_sync hand a refused batch back intact; "
            "EgressBuffer's message counter (the SNDHWM gate of the session) follows pushes and fully written chunks exactly and ignores control frames. "
+           "Receive side (unit anon: AnonymousIngressEngine::recv / recv_multipart, AddressedIngressEngine::recv_logical_message): RCVTIMEO = 0 never waits on the queue and never answers timeout; would-block is answered only for RCVTIMEO = 0; "
+           "timeout is answered only after a timed wait of exactly RCVTIMEO on the queue; RCVTIMEO = -1 never answers timeout or would-block; a failed receive consumes nothing. "
            "Two known findings are reported: send_message / send_multipart turn SNDTIMEO = -1 into a 30 s timed wait followed by would-block.",
-  "level_note": "Elapsed-time accuracy (no earlier than / not unboundedly later), RCVTIMEO on the ingress side, and 'buffering stays within HWM + a fixed allowance under any producer/consumer speeds' are runtime/schedule properties: not covered. "
+  "level_note": "Elapsed-time accuracy (no earlier than / not unboundedly later: the ghost wait log records the duration handed to tokio::time::timeout, not wall time), ROUTER's own deadline loop (recv_logical_finalized, tokio::select!), and 'buffering stays within HWM + a fixed allowance under any producer/consumer speeds' are runtime/schedule properties: not covered. "
                 "The pipe (fibre BoundedAsyncSender) and tokio::time::timeout enter as abstract stand-ins: try_send never waits and returns the refused item; a timed send either completes, fails, or elapses.",
   "technique": "contract-based deductive verification (Verus on extracted async fns; abstract channel/timeout stand-ins) with two recorded known findings",
   "trusted_base": COMMON_TRUSTED + ["fibre BoundedAsyncSender::{try_send, send} and tokio::time::timeout as abstract stand-ins (units/iface.py glue)", "prelude/time.rs"],
